@@ -1,5 +1,5 @@
 /-
-  MdModel.Cli — decision table of `minidump-stackwalk`'s `main_result`
+  MdModel.CliTable — decision table of `minidump-stackwalk`'s `main_result`
   (minidump-stackwalk/src/main.rs:355-523): output-mode munging, the two validity tests,
   writer selection and exit status. Everything below `process_minidump_with_options` and the
   printers is *not* modelled here: a `Report` is a name for the bytes the library produces
@@ -128,7 +128,7 @@ def parseInput : String → Option Input
   | "ok" => some .ok
   | _ => none
 
-def handle (_engine : String) (args : List String) : String :=
+def handleTab (args : List String) : String :=
   match args with
   | [fs, inp] =>
     match parseFlags fs, parseInput inp with
